@@ -178,7 +178,7 @@ theorem mapM_ok_length {α : Type} {f : PyVal → D α} : ∀ {l : List PyVal} {
     cases heq
     simp [mapM_ok_length has]
 
-theorem gene_image_wf {cs : Int} {d : PyVal} {o : GeneObj} (h : geneFromDict md5 cs d = .ok o) : GeneWF o := by
+theorem gene_image_wf {cs : Frame} {d : PyVal} {o : GeneObj} (h : geneFromDict md5 cs d = .ok o) : GeneWF o := by
   simp only [geneFromDict, bind_eq_ok] at h
   obtain ⟨_, _, _, _, txs, htx, _, _, gid, _, _, _, sym, _, _, _, ty, hty, _, _, lt, _, _, _, quals, _, _, _, sname, _,
     _, _, sguid, _, _, _, guid, _, rest⟩ := h
@@ -190,10 +190,10 @@ theorem gene_image_wf {cs : Int} {d : PyVal} {o : GeneObj} (h : geneFromDict md5
     refine ⟨importQuals_wf _, optBiotype_wf hty, mapM_ok_all (fun v a ha => tx_image_wf md5 ha) htx, ?_⟩
     intro hn; exact he (by simp only at hn; rw [hn]; rfl)
 
-theorem gene_import_stable {cs : Int} {d : PyVal} {o : GeneObj} (h : geneFromDict md5 cs d = .ok o) :
+theorem gene_import_stable {cs : Frame} {d : PyVal} {o : GeneObj} (h : geneFromDict md5 cs d = .ok o) :
     geneFromDict md5 cs (geneToDict o) = .ok o := gene_roundtrip md5 cs o (gene_image_wf md5 h)
 
-theorem fc_image_wf {cs : Int} {d : PyVal} {o : FcObj} (h : fcFromDict md5 cs d = .ok o) : FcWF o := by
+theorem fc_image_wf {cs : Frame} {d : PyVal} {o : FcObj} (h : fcFromDict md5 cs d = .ok o) : FcWF o := by
   simp only [fcFromDict, bind_eq_ok] at h
   obtain ⟨_, _, _, _, fs, hfs, _, _, name, _, _, _, id, _, _, _, ct, _, _, _, lt, _, _, _, quals, _, _, _, sname, _,
     _, _, sguid, _, _, _, guid, _, rest⟩ := h
@@ -205,7 +205,7 @@ theorem fc_image_wf {cs : Int} {d : PyVal} {o : FcObj} (h : fcFromDict md5 cs d 
     refine ⟨importQuals_wf _, mapM_ok_all (fun v a ha => feat_image_wf md5 ha) hfs, ?_⟩
     intro hn; exact he (by simp only at hn; rw [hn]; rfl)
 
-theorem fc_import_stable {cs : Int} {d : PyVal} {o : FcObj} (h : fcFromDict md5 cs d = .ok o) :
+theorem fc_import_stable {cs : Frame} {d : PyVal} {o : FcObj} (h : fcFromDict md5 cs d = .ok o) :
     fcFromDict md5 cs (fcToDict o) = .ok o := fc_roundtrip md5 cs o (fc_image_wf md5 h)
 
 theorem sortVars_pairwise (vs : List VarObj) : (sortVars vs).Pairwise fun a b => a.args.start ≤ b.args.start := by
@@ -214,7 +214,7 @@ theorem sortVars_pairwise (vs : List VarObj) : (sortVars vs).Pairwise fun a b =>
     (fun a b => by simp only [Bool.or_eq_true, decide_eq_true_eq]; omega) vs
   exact this.imp fun h => by simpa using h
 
-theorem vc_image_wf {cs : Int} {d : PyVal} {o : VcObj} (h : vcFromDict md5 cs d = .ok o) : VcWF o := by
+theorem vc_image_wf {cs : Frame} {d : PyVal} {o : VcObj} (h : vcFromDict md5 cs d = .ok o) : VcWF o := by
   simp only [vcFromDict, bind_eq_ok] at h
   obtain ⟨_, _, _, _, vs0, hvs, _, _, name, _, _, _, id, _, _, _, quals, _, _, _, sname, _,
     _, _, sguid, _, _, _, guid, _, rest⟩ := h
@@ -235,7 +235,7 @@ theorem vc_image_wf {cs : Int} {d : PyVal} {o : VcObj} (h : vcFromDict md5 cs d 
       | nil => exact he rfl
       | cons _ _ => simp at hl
 
-theorem vc_import_stable {cs : Int} {d : PyVal} {o : VcObj} (h : vcFromDict md5 cs d = .ok o) :
+theorem vc_import_stable {cs : Frame} {d : PyVal} {o : VcObj} (h : vcFromDict md5 cs d = .ok o) :
     vcFromDict md5 cs (vcToDict o) = .ok o := vc_roundtrip md5 cs o (vc_image_wf md5 h)
 
 /-! ### concrete objects for the non-vacuity examples of Props/C08.lean -/
